@@ -216,6 +216,19 @@ class Pipe(c11.World):
             sub.subscribe(ch, cb=None)
             self.my_subs.update(sub.sub_ids)
 
+        # a second pilot whose agent is outside this world: what is handed
+        # to it leaves the world at the proxy queue
+        self.sink = '%s/%s' % (rpc.PROXY_TASK_QUEUE, 'pilot.0001')
+        if scn.get('pilots', 1) > 1:
+            p2 = copy.deepcopy(self.pilot)
+            p2['uid'] = 'pilot.0001'
+            p2['pilot_sandbox'] = ''
+            p2['pilot_sandbox'] = str(s._get_pilot_sandbox(p2))
+            msg = {'cmd': 'add_pilots', 'arg': {'pilots': [seams.wire(p2)],
+                                                'tmgr'  : self.tm.uid}}
+            self.sched  .control_cb(rpc.CONTROL_PUBSUB, seams.wire(msg))
+            self.tmgr_in.control_cb(rpc.CONTROL_PUBSUB, seams.wire(msg))
+
         self.n_fifo      = 0
         self.cancel_sent = False
         self.submitted   = list()
@@ -302,6 +315,11 @@ class Pipe(c11.World):
             if self.ctl_pending.get(name):
                 ev.append(('ctl', name))
         return ev
+
+    def sunk(self, uid):
+        '''handed over to the pilot whose agent is outside this world'''
+        return any(t['uid'] == uid for bulk in
+                   self.net.queues.get(self.sink) or [] for t in bulk)
 
     def task_gone(self, uid):
         '''the task left the pipeline (final hand-back or final state)'''
